@@ -55,7 +55,7 @@ func newSwarm[A p2p.Addr](x p2p.Swarm[A], mtu int) *swarm[A] {
 }
 
 func (s *swarm[A]) Tell(ctx context.Context, addr A, data p2p.IOVec) error {
-	if p2p.VecSize(data) > s.mtu {
+	if p2p.VecSize(data) > s.MTU() {
 		return p2p.ErrMTUExceeded
 	}
 	underMTU := s.Swarm.MTU() - Overhead
@@ -156,6 +156,10 @@ func (s *swarm[A]) handleTell(ctx context.Context, x p2p.Message[A]) error {
 }
 
 func (s *swarm[A]) MTU() int {
+	// the part count is an 8 bit field: what does not fit into 255 parts of the inner swarm cannot be sent.
+	if underMTU := s.Swarm.MTU() - Overhead; underMTU > 0 && s.mtu > (1<<8-1)*underMTU {
+		return (1<<8 - 1) * underMTU
+	}
 	return s.mtu
 }
 
